@@ -75,7 +75,7 @@ impl Runner {
         let wall_cap: u64 = std::env::var("VERIF_WALL_CAP_S").ok().and_then(|s| s.parse().ok()).unwrap_or(if tier == "thorough" { 4 * 3600 } else { 900 });
         let rss_cap_gb: u64 = std::env::var("VERIF_RSS_CAP_GB").ok().and_then(|s| s.parse().ok()).unwrap_or(40);
         let started = std::time::Instant::now();
-        let hang_cap: u64 = std::env::var("VERIF_HANG_CAP_S").ok().and_then(|s| s.parse().ok()).unwrap_or(60);
+        let hang_cap: u64 = std::env::var("VERIF_HANG_CAP_S").ok().and_then(|s| s.parse().ok()).unwrap_or(30);
         std::thread::spawn(move || loop {
             std::thread::sleep(std::time::Duration::from_secs(1));
             mccore::panics::TICK.fetch_add(1, std::sync::atomic::Ordering::Relaxed);
